@@ -21,6 +21,7 @@ import (
 	"github.com/go-kid/ioc/container/factory"
 	"github.com/go-kid/ioc/container/processors"
 	"github.com/go-kid/ioc/container/support"
+	"github.com/go-kid/ioc/definition"
 	"github.com/go-kid/ioc/syslog"
 	"github.com/go-kid/ioc/util/framework_helper"
 )
@@ -76,11 +77,13 @@ type PDM struct{ rbase } // 14 RI Primary Mark()
 // field-less components: every zero-size allocation has the same address in Go
 type PZ1 struct{ sealedImpl } // 15 RI
 type PZ2 struct{ sealedImpl } // 16 RI Mark()
-type PZP struct{ sealedImpl } // 17 RI Primary, field-less
+type PZP struct {             // 17 RI Primary (through the library's embeddable WirePrimaryComponent), field-less
+	sealedImpl
+	definition.WirePrimaryComponent
+}
 type PZQ struct{ sealedImpl } // 18 RI Q (the constant qualifier "g1"), field-less
 
 func (*PZP) RIm()              {}
-func (*PZP) Primary()          {}
 func (*PZQ) RIm()              {}
 func (*PZQ) Qualifier() string { return "g1" }
 
